@@ -5,4 +5,6 @@ cd "$(dirname "$0")"
 export CARGO_NET_OFFLINE=true
 mkdir -p run evidence replays
 ( cd harness && cargo build --offline --profile checked && cargo build --offline --release )
+# pre-build the harness for the Miri lane of the quick tier (C05, C09); not fatal if Miri is unavailable
+( cd harness && MIRIFLAGS="-Zmiri-disable-isolation" cargo +nightly miri run --offline --target-dir target/miri -- inprocess C05 --lane miri --cases 0 >/dev/null 2>&1 ) || echo "note: Miri pre-build failed (the Miri lanes will report that they did not run)"
 echo "setup ok"
